@@ -1,7 +1,7 @@
 # Various node visitors to clean up nested function calls of various types.
 import ast
 import copy
-from typing import List, Tuple, Union, cast
+from typing import List, Optional, Tuple, Union, cast
 
 from func_adl.ast.call_stack import argument_stack, stack_frame
 from func_adl.ast.func_adl_ast_utils import (
@@ -458,58 +458,58 @@ class simplify_chained_calls(FuncADLNodeTransformer):
         else:
             return FuncADLNodeTransformer.visit_Call(self, call_node)
 
-    def visit_Subscript_Tuple(self, v: ast.Tuple, s: ast.Constant):
+    def visit_Subscript_Tuple(self, v: Union[ast.Tuple, ast.List], s: ast.expr):
         """
         (t1, t2, t3...)[1] => t2
 
-        Only works if index is a number
+        Only works if index is a constant integer. Anything else (a variable, a negative
+        number, a slice, ...) is left as a subscript of the tuple.
         """
-        # Get the value out - this is due to supporting python 3.7-3.9
-        n = s.value
-        if n is None:
+        n = s.value if isinstance(s, ast.Constant) else None
+        if not isinstance(n, int):
             return ast.Subscript(v, s, ast.Load())  # type: ignore
-        assert isinstance(n, int), "Programming error: index is not an integer in tuple subscript"
         if n >= len(v.elts):
             raise FuncADLIndexError(
                 f"Attempt to access the {n}th element of a tuple only"
                 f" {len(v.elts)} values long."
             )
+        if n < -len(v.elts):
+            return ast.Subscript(v, s, ast.Load())  # type: ignore
 
         return copy.deepcopy(v.elts[n])
 
-    def visit_Subscript_List(self, v: ast.List, s: ast.Constant):
+    def visit_Subscript_List(self, v: ast.List, s: ast.expr):
         """
         [t1, t2, t3...][1] => t2
 
-        Only works if index is a number
+        Only works if index is a constant integer.
         """
-        n = s.value
-        if n is None:
-            return ast.Subscript(v, s, ast.Load())  # type: ignore
-        if n >= len(v.elts):
-            raise FuncADLIndexError(
-                f"Attempt to access the {n}th element of a tuple"
-                f" only {len(v.elts)} values long."
-            )
+        return self.visit_Subscript_Tuple(v, s)
 
-        return copy.deepcopy(v.elts[n])
-
-    def visit_Subscript_Dict(self, v: ast.Dict, s: ast.Constant):
+    def visit_Subscript_Dict(self, v: ast.Dict, s: ast.expr):
         """
         {t1, t2, t3...}[1] => t2
-        """
-        sub = s.value
-        assert isinstance(sub, (str, int))
-        return self.visit_Subscript_Dict_with_value(v, sub)
 
-    def visit_Subscript_Dict_with_value(self, v: ast.Dict, s: Union[str, int]):
-        "Do the lookup for the dict"
+        Only works if the key is a constant that the dictionary defines.
+        """
+        if isinstance(s, ast.Constant) and isinstance(s.value, (str, int)):
+            r = self.visit_Subscript_Dict_with_value(v, s.value)
+            if r is not None:
+                return r
+        return ast.Subscript(v, s, ast.Load())  # type: ignore
+
+    def visit_Subscript_Dict_with_value(
+        self, v: ast.Dict, s: Union[str, int]
+    ) -> Optional[ast.AST]:
+        "Do the lookup for the dict. Returns None if the key can't be resolved."
+        if not all(isinstance(k, ast.Constant) for k in v.keys):
+            return None
         for index, value in enumerate(v.keys):
             assert isinstance(value, ast.Constant)
             if value.value == s:
                 return copy.deepcopy(v.values[index])
 
-        return ast.Subscript(v, s, ast.Load())  # type: ignore
+        return None
 
     def visit_Subscript_Of_First(self, first: ast.expr, s):
         """
@@ -624,6 +624,8 @@ class simplify_chained_calls(FuncADLNodeTransformer):
 
         visited_value = self.visit(node.value)
         if isinstance(visited_value, ast.Dict):
-            return self.visit_Subscript_Dict_with_value(visited_value, node.attr)
+            r = self.visit_Subscript_Dict_with_value(visited_value, node.attr)
+            if r is not None:
+                return r
 
         return ast.Attribute(value=visited_value, attr=node.attr, ctx=ast.Load())
